@@ -1039,6 +1039,28 @@ def self_clash_schema(package="selfclash"):
     return s
 
 
+def big_header_schema(package="bighdr"):
+    """Identifying values beyond 32 bits: schema version, message block length and group block length >= 2^32 in 64-bit
+    header members (C17 only: the fillers touch nothing but the header, so no buffer of that size is needed).  Added after
+    seeded change C17-5 (generator passed the values through a 32-bit parameter)."""
+    u = "uint64"
+    types = [Composite("messageHeader", [Type("blockLength", u), Type("templateId", "uint32"), Type("schemaId", "uint32"),
+                                         Type("version", u), Type("numGroups", "uint16"), Type("numVarDataFields", "uint16")]),
+             Composite("bigDim", [Type("blockLength", u), Type("numInGroup", "uint32")]),
+             Composite("bigDimS", [Type("numInGroup", "uint8"), Type("blockLength", "int64")]),
+             std_vardata()]
+    msgs = [Message("bigBlock", 4000000000, block_length=2 ** 32 + 8, fields=[Field("a", 1, "uint64")]),
+            Message("bigBlock63", 2, block_length=2 ** 63 - 1, fields=[Field("a", 2, "uint8")]),
+            Message("bigGroup", 3, fields=[Field("a", 3, "uint32")],
+                    groups=[Group("g", 4, block_length=2 ** 33 + 16, fields=[Field("x", 5, "uint64")], dimension_type="bigDim",
+                                  groups=[Group("in", 6, fields=[Field("y", 7, "uint8")], dimension_type="bigDimS")])],
+                    data=[Data("d", 8, "varDataEncoding")]),
+            Message("bigGroupS", 4, groups=[Group("g", 9, block_length=2 ** 62 + 3, fields=[Field("x", 10, "uint8")], dimension_type="bigDimS")])]
+    s = Schema(package, id=4000000001, version=2 ** 32 + 1, types=types, messages=msgs, description="64-bit identifying values", name=package)
+    s.headers_only = True
+    return s
+
+
 # ----------------------------------------------------------------------------- systematic pair clashes (C07)
 
 PAIR_POOL = ["X", "X_entry", "X_0", "X_0_entry", "X_1", "entry", "X_entry_0"]
